@@ -155,7 +155,7 @@ func c07Decay(p *Prog, r *Report) {
 // ---------------------------------------------------------------- R4 tillage
 
 func c07Tillage(p *Prog, r *Report) {
-	r.Rule("C07.R4", "tillage mixing preserves sums: for each mixed pool the summation loop and the averaging loop run over the same layers and the divisor equals their trip count; all mixed pools have the same array capacity", 10)
+	r.Rule("C07.R4", "tillage mixing preserves sums: for each mixed pool the summation loop and the averaging loop run over the same layers and the divisor equals their trip count; all mixed pools have the same array capacity; the mixing depth is capped at the number of soil layers", 11)
 	x := walked(p, "hermes.Nitro")
 	if x == nil {
 		r.Ob("Nitro", "-", false, "hermes.Nitro not found")
@@ -228,6 +228,23 @@ func c07Tillage(p *Prog, r *Report) {
 		if !found {
 			r.Ob("mix:"+shortRoot(A), "-", false, "tillage mixing of "+A+" (sum loop + averaging loop) not found")
 		}
+	}
+	// the mixing depth must not exceed the profile: layers beyond N are not part of the simulated soil (no transport,
+	// no uptake), N moved there has left every balance
+	{
+		capN := false
+		for _, e := range x.Events {
+			if e.Kind == "assign" && e.Local != nil && e.Local.Name() == "mixtief" && isCapStore(e) {
+				v := stripVersions(e.Val)
+				if v.Equal(cellP("GlobalVarsMain.N")) || v.Equal(PCall("float64", cellP("GlobalVarsMain.N"))) {
+					capN = true
+				}
+			}
+			if e.Kind == "assign" && e.Local != nil && e.Local.Name() == "mixtief" && strings.Contains(e.Val.String(), "min(") && e.Val.MentionsRoot("GlobalVarsMain.N") {
+				capN = true
+			}
+		}
+		r.Ob("mix:depth<=profile", "-", capN, fmt.Sprintf("the mixing depth is capped at the number of soil layers before the pools are summed and redistributed: %v — on a soil shallower than the tillage depth the pools are otherwise averaged over, and written into, layers below the profile", capN))
 	}
 	// the mixing depth is a run-time value (tillage depth / layer thickness) bounded only by the profile: every
 	// pool mixed by the same loops must have room for all layers the per-layer pools have, otherwise a tillage
